@@ -131,6 +131,15 @@ Inductive bsE (env : fenv) : stmt -> state -> outcome -> Prop :=
 | bsE_seq_ret a b s v s1 : bsE env a s (OReturn v s1) -> bsE env (SSeq a b) s (OReturn v s1)
 | bsE_if c a b s vc s1 t o : eval c s = Some (vc, s1) -> truth vc = Some t -> bsE env (if t then a else b) s1 o -> bsE env (SIf c a b) s o
 | bsE_return e s v s1 : eval e s = Some (v, s1) -> bsE env (SReturn e) s (OReturn v s1)
+| bsE_while_f c body s vc s1 : eval c s = Some (vc, s1) -> truth vc = Some false -> bsE env (SWhile c body) s (ONormal s1)
+| bsE_while_t c body s vc s1 s2 o : eval c s = Some (vc, s1) -> truth vc = Some true ->
+    bsE env body s1 (ONormal s2) -> bsE env (SWhile c body) s2 o -> bsE env (SWhile c body) s o
+| bsE_while_ret c body s vc s1 v s2 : eval c s = Some (vc, s1) -> truth vc = Some true ->
+    bsE env body s1 (OReturn v s2) -> bsE env (SWhile c body) s (OReturn v s2)
+| bsE_break s : bsE env SBreak s (OBreak s)
+| bsE_seq_brk a b s s1 : bsE env a s (OBreak s1) -> bsE env (SSeq a b) s (OBreak s1)
+| bsE_while_brk c body s vc s1 s2 : eval c s = Some (vc, s1) -> truth vc = Some true ->
+    bsE env body s1 (OBreak s2) -> bsE env (SWhile c body) s (ONormal s2)
 | bsE_call ret g args s fn vals cells s1 v st' s2 :
     env g = Some fn -> eval_args args s = Some (vals, cells, s1) -> List.length vals = List.length (fparams fn) ->
     bsE env (fbody fn) (callee_init fn vals cells s1) (OReturn v st') ->
@@ -157,6 +166,13 @@ Proof.
   - destruct IHbsE as (f1 & H2). exists (S f1). intros f Hf. destruct f; [lia|]. cbn [execE]. rewrite H, H0.
     destruct t; apply H2; lia.
   - exists 1%nat. intros f Hf. destruct f; [lia|]. cbn [execE]. now rewrite H.
+  - exists 1%nat. intros f Hf. destruct f; [lia|]. cbn [execE]. now rewrite H, H0.
+  - destruct IHbsE1 as (f1 & H3), IHbsE2 as (f2 & H4). exists (S (Nat.max f1 f2)). intros f Hf. destruct f; [lia|]. cbn [execE].
+    rewrite H, H0, H3 by lia. apply H4. lia.
+  - destruct IHbsE as (f1 & H3). exists (S f1). intros f Hf. destruct f; [lia|]. cbn [execE]. rewrite H, H0, H3 by lia. reflexivity.
+  - exists 1%nat. intros f Hf. destruct f; [lia|reflexivity].
+  - destruct IHbsE as (f1 & H1). exists (S f1). intros f Hf. destruct f; [lia|]. cbn [execE]. rewrite H1 by lia. reflexivity.
+  - destruct IHbsE as (f1 & H3). exists (S f1). intros f Hf. destruct f; [lia|]. cbn [execE]. rewrite H, H0, H3 by lia. reflexivity.
   - destruct IHbsE as (f1 & H4). exists (S f1). intros f Hf. destruct f; [lia|]. cbn [execE]. rewrite H, H0.
     rewrite H1, Nat.eqb_refl. cbn [negb]. rewrite H4 by lia. now rewrite H3.
   - destruct IHbsE as (f1 & H4). exists (S f1). intros f Hf. destruct f; [lia|]. cbn [execE]. rewrite H, H0.
